@@ -318,6 +318,17 @@ Fixpoint s_del (t fuel : nat) (isroot : bool) (s : store) (id : nat) (key : Z) (
         else s_del_down t rec s id key i exact
   end.
 
+Fixpoint s_get (fuel : nat) (s : store) (id : nat) (k : Z) : res (option elt) :=
+  match fuel with
+  | O => Internal eFuel
+  | S f =>
+      do n <- sget s id;
+      do (i, eq) <- search k (s_elts n);
+      if eq then do (_, x, _) <- split_at i (s_elts n); Ok (Some x)
+      else if s_leaf n then Ok None
+      else do (_, c, _) <- split_at i (s_kids n); s_get f s c k
+  end.
+
 (* ---- BTree handle on the store *)
 
 Record sbtree := mkSB { sb_t : nat; sb_root : nat; sb_cr : nat; sb_size : Z; sb_immut : bool; sb_inorder : bool }.
@@ -442,7 +453,12 @@ Inductive sop :=
 | SIns (ti k v : Z) (io : option bool) (report : bool)      (* io = None: the tree's own in_order *)
 | SDel (ti k : Z) (exact : option Z) (mode : nat)             (* 0 element / 1 KeyError / 2 None *)
 | SFreeze (ti : Z)
-| SClone (ti : Z) (io : bool).
+| SClone (ti : Z) (io : bool)
+(* the collections.abc mixins: compositions of the primitives above on the same tree *)
+| SPop (ti k : Z)                 (* pop(k) / remove(k): delete only if the key is present *)
+| SPopFirst (ti : Z)              (* popitem() / set.pop(): delete the first key, if any *)
+| SClear (ti : Z)                 (* clear(): delete the first key until empty *)
+| SSetDefault (ti k v : Z).       (* setdefault(k, v): insert only if absent *)
 
 Definition decode (op : obs) : option sop :=
   match op with
@@ -458,10 +474,18 @@ Definition decode (op : obs) : option sop :=
   | L [I 22; I ti; I k] => Some (SDel ti k None 1)
   | L [I 23; I ti; I k] => Some (SIns ti k 0 None false)
   | L [I 24; I ti; I k] => Some (SDel ti k None 2)
+  | L [I 40; I ti; I k] => Some (SPop ti k)
+  | L [I 41; I ti] => Some (SPopFirst ti)
+  | L [I 42; I ti] => Some (SClear ti)
+  | L [I 43; I ti; I k; I v] => Some (SSetDefault ti k v)
+  | L [I 44; I ti; I k; I v] => Some (SIns ti k v None false)
+  | L [I 45; I ti; I k] => Some (SPop ti k)
+  | L [I 46; I ti] => Some (SPopFirst ti)
+  | L [I 47; I ti] => Some (SClear ti)
   | _ => None
   end.
 
-Definition exec (w : sworld) (x : sop) : sworld * obs :=
+Definition exec_prim (w : sworld) (x : sop) : sworld * obs :=
   match x with
   | SNew t io => s_new w t io
   | SIns ti k v io report =>
@@ -481,6 +505,40 @@ Definition exec (w : sworld) (x : sop) : sworld * obs :=
       s_with_tree w ti (fun i b =>
         (mkSW (sw_store w) (set_nth i (mkSB (sb_t b) (sb_root b) (sb_cr b) (sb_size b) true (sb_inorder b)) (sw_trees w)), N))
   | SClone ti io => s_with_tree w ti (fun i b => s_clone w b io)
+  | _ => (w, N)
+  end.
+
+Definition s_lookup (w : sworld) (ti k : Z) : option elt :=
+  match nth_error (sw_trees w) (Z.to_nat ti) with
+  | Some b => match s_get (S (length (sw_store w))) (sw_store w) (sb_root b) k with Ok o => o | _ => None end
+  | None => None
+  end.
+
+Definition s_first (w : sworld) (ti : Z) : option elt :=
+  match nth_error (sw_trees w) (Z.to_nat ti) with
+  | Some b => match s_minimum (S (length (sw_store w))) (sw_store w) (sb_root b) with Ok e => Some e | _ => None end
+  | None => None
+  end.
+
+Fixpoint s_clear (fuel : nat) (w : sworld) (ti : Z) : sworld :=
+  match fuel with
+  | O => w
+  | S f => match s_first w ti with
+           | Some e => s_clear f (fst (exec_prim w (SDel ti (fst e) None 2))) ti
+           | None => w
+           end
+  end.
+
+Definition tree_size (w : sworld) (ti : Z) : nat :=
+  match nth_error (sw_trees w) (Z.to_nat ti) with Some b => Z.to_nat (sb_size b) | None => O end.
+
+Definition exec (w : sworld) (x : sop) : sworld * obs :=
+  match x with
+  | SPop ti k => match s_lookup w ti k with Some _ => exec_prim w (SDel ti k None 2) | None => (w, N) end
+  | SPopFirst ti => match s_first w ti with Some e => exec_prim w (SDel ti (fst e) None 2) | None => (w, N) end
+  | SClear ti => (s_clear (S (tree_size w ti)) w ti, N)
+  | SSetDefault ti k v => match s_lookup w ti k with Some _ => (w, N) | None => exec_prim w (SIns ti k v None false) end
+  | _ => exec_prim w x
   end.
 
 Definition sstep (w : sworld) (op : obs) : sworld * obs :=
